@@ -105,6 +105,7 @@ class Call(object):
         self.name, self.d, self.nreq, self.delay, self.wrapped = name, d, nreq, delay, wrapped
         self.result = []
         self.timers = []
+        self.helper = False       # the call needed a metadata / coordinator lookup or a bootstrap connection first
         d.addBoth(self.result.append)
 
     def outcome(self):
@@ -149,6 +150,10 @@ class PublicSim(object):
         self.closed = False
         self.closefired = 0
         self.coord = None
+        self.acc_scheds = []      # (id, delay) since the last accounting point
+        self.acc_reqs = []        # (conn, api, corr, is_broker_conn) written since the last accounting point
+        self.seen_corr = set()    # correlation ids already written on a broker connection (re-sends are not new requests)
+        self.api_tps = {}         # api key -> (topic, partition) list of the latest call of that api
 
     def B(self, thm, msg):
         self.bad.append((thm, msg))
@@ -161,6 +166,7 @@ class PublicSim(object):
             k = e[0]
             if k == "sched":
                 out["scheds"].append((e[1], e[2]))
+                self.acc_scheds.append((e[1], e[2]))
                 self.armed[e[1]] = ("other",)
             elif k == "cancel_timer":
                 out["cancels"].append(e[1])
@@ -179,6 +185,7 @@ class PublicSim(object):
                     api, _ver, corr = struct.unpack(">hhi", buf[4:12])
                     out["writes"].append((e[1], api, corr))
                     self.requests.append([e[1], api, corr, False, buf[4:4 + n]])
+                    self.acc_reqs.append((e[1], api, corr, self.node_of_conn(e[1]) is not None))
                     buf = buf[4 + n:]
                 self.frames[e[1]] = buf
             elif k == "connect":
@@ -208,7 +215,10 @@ class PublicSim(object):
         if tr is None:
             return None
         req[3] = True
-        tps = self.asked.get(corr)
+        node = self.node_of_conn(conn)
+        tps = self.api_tps.get(api) or []
+        if api in (0, 1, 2):
+            tps = [tp for tp in tps if LEADER[tp] == node] or tps
         if api == 3:
             names = parse_metadata_topics(body)
             resp = enc_metadata_resp(corr, BROKERS, [t for t in TOPICS if not names or t[0] in names], bad=[n for n in names if n in self.bad_topics])
@@ -295,12 +305,41 @@ class PublicSim(object):
         call = Call(kind, d, nreq, self.expected_delay(min_s), tps)
         self.calls.append(call)
         self.history.append((kind, tps))
+        if tps is not None:
+            api = {"produce": 0, "fetch": 1, "offsets": 2, "offset_fetch": 9, "offset_commit": 8}[kind.split("(")[0]]
+            self.api_tps[api] = tps
         turn = self.drain()
-        # remember what each request of this call asks for (to answer honestly)
-        for conn, api, corr in turn["writes"]:
-            if tps is not None:
-                self.asked[corr] = [tp for tp in tps if kind.startswith("offset_") or LEADER[tp] == self.node_of_conn(conn)] or tps
         return call, turn
+
+    def account(self, call=None):
+        """C11_timer_at_issue on the wire: since the last accounting point, every NEW request written (a correlation id not
+        written before on a broker connection; every write on a bootstrap connection) has exactly one DelayedCall armed for
+        it, with delay max(client timeout, the minimum its entry point declares) - JoinGroup: 35 s."""
+        want = []
+        for conn, api, corr, is_bc in self.acc_reqs:
+            if is_bc:
+                key = (self.bc_of_conn(conn), corr)       # the same id on the same broker client again = a re-send
+                if key in self.seen_corr:
+                    continue
+                self.seen_corr.add(key)
+                if call is not None and api in (3, 10) and not call.name.startswith(("metadata", "coordinator", "topic_partitions")):
+                    call.helper = True
+            elif call is not None:
+                call.helper = True
+            want.append(self.expected_delay(35.0 if api == 11 else None))
+        pol = set()
+        for k in self.policy.calls:
+            pol.add(L.Policy.value(k).hex())
+        got = [dl for _i, dl in self.acc_scheds if not (isinstance(dl, float) and dl.hex() in pol)]
+        if sorted(x.hex() for x in want) != sorted(float(x).hex() for x in got):
+            self.B("C11_timer_at_issue", "%s: new requests on the wire %r need DelayedCalls of %r s, armed: %r"
+                   % (call.name if call else "?", [(API_NAMES.get(a, a), c) for _x, a, c, _b in self.acc_reqs], sorted(want), sorted(got)))
+        if call is not None:
+            for i, dl in self.acc_scheds:
+                if i in self.armed and isinstance(dl, float) and dl.hex() not in pol:
+                    call.timers.append(i)
+                    self.armed[i] = ("call", call)
+        self.acc_scheds, self.acc_reqs = [], []
 
     def coordinator(self):
         if self.coord is None:
@@ -308,6 +347,12 @@ class PublicSim(object):
             self.coord = Coordinator(self.client, GROUP, ["t0"])
             self.coord.rejoin_after_error = lambda f, label=None: f       # the group's reaction is not under test here
         return self.coord
+
+    def bc_of_conn(self, conn):
+        for a in self.net.attempts:
+            if a.transport is not None and a.transport.conn_id == conn:
+                return id(a.factory)
+        return None
 
     def node_of_conn(self, conn):
         for a in self.net.attempts:
@@ -344,19 +389,9 @@ def scenario(seed, cfg):
         stats[k] = stats.get(k, 0) + 1
 
     def check_issue(call, turn, bootstrap=False):
-        """C11_timer_at_issue on the real entry point"""
-        mine = [(i, dl) for i, dl in turn["scheds"] if isinstance(dl, float) and dl.hex() == call.delay.hex()]
-        synced = set(turn["cancels"])
-        if bootstrap:
-            return
-        want = call.nreq
-        if len(mine) != want:
-            sim.B("C11_timer_at_issue", "%s: %d request(s) to known brokers, DelayedCalls armed at issue %r, expected %d of %r s"
-                  % (call.name, want, turn["scheds"], want, call.delay))
-        for i, _dl in mine:
-            if i not in synced:
-                call.timers.append(i)
-                sim.armed[i] = ("call", call)
+        """bring every connection up (queued requests get written), then account for the new wire requests"""
+        sim.accept_all()
+        sim.account(call)
 
     def settle_replies(call):
         """answer every unanswered request on the wire that belongs to this call's api; reply-first"""
@@ -369,6 +404,8 @@ def scenario(seed, cfg):
             if turn is None:
                 continue
             n += 1
+            sim.accept_all()
+            sim.account(call)     # a reply may make the operation issue its next request
             gone = [t for t in call.timers if t in before and t not in sim.armed]
             if call.timers and not gone and not turn["scheds"] and call.outcome() == "pending" and req[1] not in (3, 10):
                 sim.B("C11_timer_released", "%s: reply to request id %d did not release any of its DelayedCalls %r" % (call.name, req[2], call.timers))
@@ -385,9 +422,7 @@ def scenario(seed, cfg):
     r = sim.issue("metadata")
     if r:
         call, turn = r
-        t2 = sim.accept_all()
-        if not any(isinstance(dl, float) and dl.hex() == call.delay.hex() for _i, dl in t2["scheds"]):
-            sim.B("C11_bound", "bootstrap request written without a DelayedCall of the client timeout: %r" % (t2["scheds"],))
+        check_issue(call, turn)
         settle_replies(call)
         if call.outcome() != "ok":
             sim.B("C11_bound", "initial load_metadata_for_topics over a bootstrap host: %s" % call.outcome())
@@ -403,9 +438,11 @@ def scenario(seed, cfg):
     d.addErrback(lambda f: None)
     sim.drain()
     sim.accept_all()
+    sim.account()
     for req in list(sim.requests):
         if not req[3]:
             sim.reply_to(req)
+    sim.account()
     caches = lambda: (len(c.topic_errors), len(c.topics_to_brokers), len(c.topic_partitions), len(c.consumer_group_to_brokers))
     if min(caches()) == 0:
         sim.B("C20_metadata_cleared", "set-up failed to fill all four caches: %r" % (caches(),))
@@ -413,7 +450,8 @@ def scenario(seed, cfg):
     # ---- phase B: public calls, each with a fate
     ncalls = rnd.randint(3, 8)
     pending = []
-    for _ in range(ncalls):
+    nleave = rnd.choice([0, 1, 1, 2])      # only the last calls may be left pending: no overlap with the checks of earlier ones
+    for ci in range(ncalls):
         kind = rnd.choice(KINDS_KNOWN)
         r = sim.issue(kind)
         if not r:
@@ -422,7 +460,7 @@ def scenario(seed, cfg):
         st("issued_" + kind)
         check_issue(call, turn)
         t2 = sim.accept_all()
-        fate = rnd.choice(["reply", "reply", "timeout", "late", "leave"])
+        fate = "leave" if ci >= ncalls - nleave else rnd.choice(["reply", "reply", "timeout", "late"])
         if call.outcome() != "pending":
             finish_check(call)
             continue
@@ -444,13 +482,16 @@ def scenario(seed, cfg):
                 sim.clock.fire_next()
                 turn = sim.drain()
                 sim.accept_all()
-                if mine and call.nreq == 1 and call.outcome() == "pending" and not call.name.startswith("metadata"):
+                sim.account(call)
+                if mine and call.nreq == 1 and not call.helper and call.outcome() == "pending" and not call.name.startswith(("metadata", "coordinator", "topic_partitions")):
                     sim.B("C11_bound", "%s: its DelayedCall %d fired and the call is still pending" % (call.name, nxt.sim_id))
                 if mine and sim.cfg["dot"] and not turn["loses"] and sim.transports():
                     pass    # the drop is requested only if that broker client was connected; covered by the model-level check
             if call.timers and call.outcome() == "ok":
                 sim.B("C11_bound", "%s never answered: outcome ok" % call.name)
-            if call.outcome() not in ("timeout", "pending") and call.timers:
+            ok_fail = ("timeout", "pending") + (("fail:KafkaUnavailableError", "fail:CoordinatorNotAvailable", "fail:FailedPayloadsError")
+                                                if call.helper or call.name.startswith(("metadata", "coordinator")) else ())
+            if call.outcome() not in ok_fail and call.timers:
                 sim.B("C11_bound", "%s timed out: outcome %s (expected a RequestTimedOutError)" % (call.name, call.outcome()))
             finish_check(call)
             if fate == "late":
@@ -462,12 +503,15 @@ def scenario(seed, cfg):
                             sim.B("C11_late_reply_inert", "late reply to id %d produced %r" % (req[2], {k: v for k, v in turn.items() if v}))
         else:
             pending.append(call)
+            for req in sim.requests:
+                req[3] = True      # never answered
         # connections dropped on timeout come back when needed
         for t in sim.transports():
             if t.disconnecting:
                 t.report_lost()
         sim.drain()
         sim.accept_all()
+        sim.account()
         for req in sim.requests:
             if not req[3] and fate != "leave":
                 req[3] = True      # re-sent copies are tracked as new requests
@@ -480,7 +524,7 @@ def scenario(seed, cfg):
         r = sim.issue("topic_partitions")
         if r:
             call, turn = r
-            sim.accept_all()
+            check_issue(call, turn)
             settle_replies(call)       # answered "t0: error 5, no partitions" -> the operation waits in its retry back-off
             pending.append(call)
             st("close_during_retry_backoff")
@@ -488,9 +532,8 @@ def scenario(seed, cfg):
         r = sim.issue(extra)
         if r:
             call, turn = r
-            check_issue(call, turn)
             if rnd.random() < 0.5:
-                sim.accept_all()
+                check_issue(call, turn)
             pending.append(call)
     before = caches()
     pend = [x for x in pending if x.outcome() == "pending"]
